@@ -958,7 +958,25 @@ def run(P, rep, tier):
     r0511(P, u, E, cat, rep)
     r0512(P, u, E, rep)
     r0514(P, u, E, rep)
-    r0515(P, u, E, rep)
+    r0516(P, rep)
+
+
+def r0516(P, rep):
+    """the image of a static object is computed while a parser context flag says "inside a static initialiser": a compound literal nested in such an
+    initialiser is an anonymous static object only while the flag is up, and the inner activation of gvar_initializer (for that literal) must hand the
+    context back. C15's static-context rule, re-used"""
+    from ..report import Report, reissue
+    from ..chibi import CG
+    from . import c15
+    rep.rule('R05.16', 'gvar_initializer establishes the static-initialiser context for the whole parse of the initialiser, a nested activation (compound literal inside the initialiser) returns with the context it was entered with, and the context ends with the outermost initialiser (same obligations as C15 R15.6 static-context): otherwise a later compound literal of the same initialiser becomes an automatic object and the initialiser is rejected or takes a stack address', floor=2)
+    sub = Report('C15')
+    sub.rule('R15.6', '', 1)
+    try:
+        c15.r156_static_context(c15.ParseEnv(P, CG(P)), sub, ('new_anon_gvar', 'new_gvar', 'new_var', 'new_unique_name', 'new_string_literal'))
+    except AnalysisBroken as e:
+        rep.undecided('R05.16', 'parse.c:gvar_initializer:static-context', 'could not be evaluated: %s' % e)
+        return
+    reissue(rep, 'R05.16', sub, 'a static initialiser holding a compound literal would be translated wrongly: ')
 
 
 # ------------------------------------------------------------------------------------------------
